@@ -1,0 +1,5 @@
+// Package verifhook holds the observation points which are used by the external
+// verification harness. All of them are compiled in only with the "verif" build
+// tag; without the tag this package is empty and nothing in the module refers
+// to it.
+package verifhook
